@@ -4,6 +4,8 @@ import json, glob, os
 ROOT = os.path.dirname(os.path.dirname(os.path.abspath(__file__)))
 # seeds that the quick tier missed when first tried, and what was strengthened
 HISTORY = {
+ "C05-h": "missed at first (no family took the raw-TFM route through unpack_entrypoint); family tfm-route-redirect-tables",
+ "C11-h": "missed by C11 at first (caught by C10's header-byte sweep); face bytes around the coded/numbered boundary added to the C11 header families",
  "C01-h": "missed at first (macro kinds never combined \\global with \\long/\\outer); prefix-combination assignment forms added",
  "C03-h": "missed at first (C03 drove the bare Lexer, not the stdlib glue); VM-level families vm-endlinechar, vm-catcode",
  "C05-f": "missed at first (ASCII-only alphabet); family programs-8bit",
